@@ -566,9 +566,9 @@ impl Engine for SinkSim {
     fn runs(&self, tier: Tier) -> u64 {
         match (self.0, tier) {
             (Which::C16, Tier::Quick) => 16_000,
-            (Which::C16, Tier::Thorough) => 150_000,
+            (Which::C16, Tier::Thorough) => 800_000,
             (Which::C19, Tier::Quick) => 20_000,
-            (Which::C19, Tier::Thorough) => 600_000,
+            (Which::C19, Tier::Thorough) => 6_000_000,
         }
     }
     fn heartbeat(&self) -> u64 {
